@@ -23,6 +23,36 @@ Fixpoint gcount (s : bytes) (skip : nat) (n : nat) : nat :=
   end.
 Definition re_groupcount (s : bytes) : nat := gcount s 0 0.
 
+(* the number of groups of a parse tree = what rnode_grpnum returns *)
+Fixpoint ngroups (t : node) : nat :=
+  match t with
+  | NNil => 0%nat
+  | NAtom _ _ _ => 0%nat
+  | NGrp x _ _ _ => (1 + ngroups x)%nat
+  | NCat x y => (ngroups x + ngroups y)%nat
+  | NAlt x y => (ngroups x + ngroups y)%nat
+  end.
+
+(* An executable check of rset_make's bookkeeping against the parser (C10_rset_index): the combined
+   pattern is parsed completely, the tree is one outer group around the alternation of one wrapper
+   group per non-NULL pattern, and each wrapper contains exactly re_groupcount p groups. *)
+Fixpoint somes (res : list (option bytes)) : list bytes :=
+  match res with [] => [] | None :: r => somes r | Some p :: r => p :: somes r end.
+Definition is_wrap (t : node) (p : bytes) : bool :=
+  match t with
+  | NGrp x _ mn mx => (mn =? 1)%Z && (mx =? 1)%Z && Nat.eqb (ngroups x) (re_groupcount p)
+  | _ => false
+  end.
+Fixpoint check_alts (body : node) (ps : list bytes) {struct ps} : bool :=
+  match ps with
+  | [] => false
+  | p :: ps' =>
+    match ps' with
+    | [] => is_wrap body p
+    | _ :: _ => match body with NAlt w rest => is_wrap w p && check_alts rest ps' | _ => false end
+    end
+  end.
+
 Record rset := { rs_prog : prog; rs_cflg : Z; rs_n : nat; rs_grp : list Z; rs_setgrpcnt : list nat; rs_grpcnt : nat }.
 
 (* the combined pattern and the group tables; NULL entries of re[] are None *)
@@ -39,6 +69,12 @@ Fixpoint rset_build (res : list (option bytes)) (sb : bytes) (grpcnt : nat) : by
 
 Definition rset_pattern (res : list (option bytes)) : bytes :=
   let '(sb, _, _, _) := rset_build res [40] 2 in sb ++ [41].
+
+Definition rset_shape (res : list (option bytes)) : bool :=
+  match parse_pat (rset_pattern res) with
+  | Ok (Some (NGrp body _ mn mx), []) => (mn =? 1)%Z && (mx =? 1)%Z && check_alts body (somes res)
+  | _ => false
+  end.
 
 (* None = rset_make returns NULL *)
 Definition rset_make (res : list (option bytes)) (flg : Z) : ReSyntax.res (option rset) :=
